@@ -71,7 +71,11 @@ class Unit:
 
     def take_free_fn(self, path, name, contract=None, mode='G', tparams=('T',)):
         it = self.exp.find_item(path, 'fn', name)
+        if any(x[1] is it for x in self.free_fns):
+            return
         self.free_fns.append((path, it, mode, contract, tparams))
+        if contract is not None and not contract.external_body:
+            self.functions.append('%s :: fn %s' % (path, name))
 
     def add(self, path, text):
         self.extra.setdefault(path, []).append(text)
